@@ -1,86 +1,11 @@
 /-
-  QV.Proofs.ZoneFile.Records — the record parser on rendered records, and whole files of the
-  presentation subset of `C23_records_partial`.
+  QV.Proofs.ZoneFile.Records — the record parser on rendered records, directives, and whole
+  files of the presentation subset of `C23_records_partial`.
 -/
-import QV.Proofs.ZoneFile.Assemble
+import QV.Proofs.ZoneFile.Gaps
 
 namespace QV.ZF
 open QV QV.Spec.ZF
-
-/-! ### small evaluation lemmas -/
-
-theorem tryP_ok {α} {p : P α} {st st' : St} {a : α} (h : p st = .ok (a, st')) :
-    tryP p st = .ok (some a, st') := by simp [tryP, h]
-
-theorem tryP_err {α} {p : P α} {st : St} {e : Err} (h : p st = .err e) :
-    tryP p st = .ok (none, st) := by simp [tryP, h]
-
-theorem readField_plain_none {α} (parse : List UInt8 → Option α) (k : Kind) (f rest : List UInt8)
-    (hf : ∀ c ∈ f, plainOctet c = true) (hlen : f.length ≤ 65536) (hrest : atFieldEnd rest = true)
-    (hp : parse f = none) (line : Nat) (paren : Bool) :
-    readField parse k ⟨f ++ rest, line, paren⟩ = .err ⟨k, line⟩ := by
-  unfold readField
-  simp only [fieldLen_plain f rest hf hrest, Gen.MAX_READ_FIELD_SIZE]
-  have : ¬ (f.length > 65536) := by omega
-  simp [this, utf8Valid_ascii f hf, hp, fail]
-
-theorem renderType_plain (ty : Nat) : ∀ c ∈ renderType ty, plainOctet c = true := by
-  intro c hc
-  simp only [renderType, List.cons_append, List.nil_append, List.mem_cons] at hc
-  rcases hc with rfl | rfl | rfl | rfl | hc
-  · decide
-  · decide
-  · decide
-  · decide
-  · exact decimal_plain ty c hc
-
-theorem renderClass_plain (k : Nat) : ∀ c ∈ renderClass k, plainOctet c = true := by
-  intro c hc
-  simp only [renderClass, List.cons_append, List.nil_append, List.mem_cons] at hc
-  rcases hc with rfl | rfl | rfl | rfl | rfl | hc
-  · decide
-  · decide
-  · decide
-  · decide
-  · decide
-  · exact decimal_plain k c hc
-
-theorem renderType_length (ty : Nat) (h : ty ≤ 65535) : (renderType ty).length ≤ 65536 := by
-  have := decimal_length_le ty (by omega)
-  simp [renderType]; omega
-
-theorem renderClass_length (k : Nat) (h : k ≤ 65535) : (renderClass k).length ≤ 65536 := by
-  have := decimal_length_le k (by omega)
-  simp [renderClass]; omega
-
-theorem renderType_not_u32 (ty : Nat) : parseU32 (renderType ty) = none :=
-  parseUInt_letter _ 84 _ (by decide) (by decide)
-
-theorem renderClass_not_u32 (k : Nat) : parseU32 (renderClass k) = none :=
-  parseUInt_letter _ 67 _ (by decide) (by decide)
-
-theorem renderType_start (ty : Nat) (rest : List UInt8) :
-    ∃ t, renderType ty ++ rest = 84 :: t ∧ fieldStart 84 := ⟨_, rfl, .inr (by decide)⟩
-
-theorem renderClass_start (k : Nat) (rest : List UInt8) :
-    ∃ t, renderClass k ++ rest = 67 :: t ∧ fieldStart 67 := ⟨_, rfl, .inr (by decide)⟩
-
-/-- `parse_ttl` on a decimal TTL -/
-theorem parseTtl_decimal (t : Nat) (ht : t ≤ 4294967295) (rest : List UInt8) (hrest : atFieldEnd rest = true)
-    (line : Nat) (paren : Bool) :
-    parseTtl ⟨decimal t ++ rest, line, paren⟩ = .ok (ttlFrom t, ⟨rest, line, paren⟩) := by
-  unfold parseTtl
-  simp only [bind, P.bind, show parseU32 = parseUInt 4294967295 from rfl,
-    readField_decimal 4294967295 t ht (by omega) _ rest hrest line paren]
-  rfl
-
-/-- `parse_ttl` on a field that starts with a letter fails without consuming -/
-theorem parseTtl_fails (f rest : List UInt8) (hf : ∀ c ∈ f, plainOctet c = true) (hlen : f.length ≤ 65536)
-    (hrest : atFieldEnd rest = true) (hp : parseU32 f = none) (line : Nat) (paren : Bool) :
-    tryP parseTtl ⟨f ++ rest, line, paren⟩ = .ok (none, ⟨f ++ rest, line, paren⟩) := by
-  apply tryP_err (e := ⟨.InvalidTtl, line⟩)
-  unfold parseTtl
-  simp only [bind, P.bind, readField_plain_none parseU32 _ f rest hf hlen hrest hp line paren]
 
 /-! ### TTL and class, written or omitted -/
 
@@ -94,126 +19,149 @@ def clsChoice (ctx : Ctx) : Option Nat → Option Nat
   | some k => some k
   | none => ctx.prevClass
 
-theorem parseClassField_render (k : Nat) (hk : k ≤ 65535) (rest : List UInt8) (hrest : atFieldEnd rest = true)
-    (line : Nat) (paren : Bool) :
-    parseClassField ⟨renderClass k ++ rest, line, paren⟩ = .ok (k, ⟨rest, line, paren⟩) :=
-  readField_plain parseClass _ _ rest k (renderClass_plain k) (renderClass_length k hk) hrest
-    (parseClass_render k hk) line paren
+/-- TTL and class texts, each present or not, in either order; `gA` after the first that is
+    present, `gB` after the second -/
+def tcText (gA gB : List UInt8) (ttl : Option Nat) (clsT : Option (List UInt8)) (cf : Bool) : List UInt8 :=
+  match ttl, clsT with
+  | some t, some c => if cf then c ++ (gA ++ (decimal t ++ gB)) else decimal t ++ (gA ++ (c ++ gB))
+  | some t, none => decimal t ++ gA
+  | none, some c => c ++ gA
+  | none, none => []
 
-theorem parseClassField_type_fails (ty : Nat) (hty : ty ≤ 65535) (rest : List UInt8)
-    (hrest : atFieldEnd rest = true) (line : Nat) (paren : Bool) :
-    tryP parseClassField ⟨renderType ty ++ rest, line, paren⟩ = .ok (none, ⟨renderType ty ++ rest, line, paren⟩) :=
-  tryP_err (readField_plain_none parseClass _ _ rest (renderType_plain ty) (renderType_length ty hty) hrest
-    (parseClass_type ty) line paren)
+theorem ttlClassText_eq (gA gB : List UInt8) (ttl : Option Nat) (cls : Option PCode) (cf : Bool) :
+    ttlClassText gA gB ttl cls cf = tcText gA gB ttl (cls.map classText) cf := by
+  cases ttl <;> cases cls <;> rfl
+
+/-- parenthesis state after the TTL and class fields -/
+def tcEnd {α β} (q1 q2 q3 : Bool) (ttl : Option α) (cls : Option β) : Bool :=
+  match ttl, cls with
+  | some _, some _ => q3
+  | none, none => q1
+  | _, _ => q2
+
+/-- line ends in the gaps after the TTL and class fields -/
+def tcLines {α β} (a b : Nat) (ttl : Option α) (cls : Option β) : Nat :=
+  match ttl, cls with
+  | some _, some _ => a + b
+  | none, none => 0
+  | _, _ => a
 
 theorem skip_nil (k : Kind) (c : UInt8) (r : List UInt8) (hc : fieldStart c) (line : Nat) (paren : Bool) :
     skipToNextField k ⟨c :: r, line, paren⟩ = .ok ((), ⟨c :: r, line, paren⟩) :=
   skipToNextField_gap k [] (by simp) c r hc line paren
 
-/-- **TTL and class fields**: written or omitted (TTL first when both are written), followed by
-    the type field: the values are the written ones, or the context's defaults -/
-theorem ttlClass_eval (ctx : Ctx) (sep : List UInt8) (hne : sep ≠ []) (hsep : ∀ x ∈ sep, isWs x = true)
-    (ttl cls : Option Nat) (cf : Bool) (ht : ∀ t, ttl = some t → t ≤ 4294967295) (hk : ∀ k, cls = some k → k ≤ 65535)
-    (ty : Nat) (hty : ty ≤ 65535) (R : List UInt8) (hR : atFieldEnd R = true) (tv cv : Nat)
-    (htv : ttlChoice ctx ttl = some tv) (hcv : clsChoice ctx cls = some cv) (line : Nat) :
-    ∃ st1, parseTtlAndClass ctx ⟨ttlClassText sep ttl cls cf ++ (renderType ty ++ R), line, false⟩ =
+theorem skipTo_nil (k : Kind) (X : List UInt8) (hX : ∃ c t, X = c :: t ∧ fieldStart c) (line : Nat)
+    (paren : Bool) : skipToNextField k ⟨X, line, paren⟩ = .ok ((), ⟨X, line, paren⟩) := by
+  obtain ⟨c, t, rfl, hc⟩ := hX
+  exact skip_nil k c t hc line paren
+
+theorem decimal_starts (n : Nat) (rest : List UInt8) : ∃ c t, decimal n ++ rest = c :: t ∧ fieldStart c := by
+  obtain ⟨d, ds, hd, hs⟩ := decimal_head n
+  exact ⟨d, ds ++ rest, by rw [hd]; rfl, hs⟩
+
+/-- **TTL and class fields**: each written or omitted, in either order, with general gaps after
+    them, followed by the type field: the values are the written ones, or the context's defaults -/
+theorem ttlClass_eval (ctx : Ctx) (gA gB : PGap) (q1 q2 q3 : Bool)
+    (ttl : Option Nat) (cls : Option (List UInt8 × Nat)) (cf : Bool) (ht : ∀ t, ttl = some t → t ≤ 4294967295)
+    (hk : ∀ T k, cls = some (T, k) → ClassTextOK T k)
+    (hA : ttl.isSome = true ∨ cls.isSome = true → GapOK gA q1 q2)
+    (hB : ttl.isSome = true → cls.isSome = true → GapOK gB q2 q3)
+    (tyT : List UInt8) (ty : Nat) (hty : TypeTextOK tyT ty)
+    (R : List UInt8) (hR : atFieldEnd R = true) (tv cv : Nat)
+    (htv : ttlChoice ctx ttl = some tv) (hcv : clsChoice ctx (cls.map (·.2)) = some cv) (line : Nat) :
+    ∃ st1, parseTtlAndClass ctx ⟨tcText (gapText gA) (gapText gB) ttl (cls.map (·.1)) cf ++ (tyT ++ R), line, q1⟩ =
         .ok ((tv, cv), st1) ∧
-      skipToNextField .ExpectedType st1 = .ok ((), ⟨renderType ty ++ R, line, false⟩) := by
-  have hTend : atFieldEnd (sep ++ (renderType ty ++ R)) = true := atFieldEnd_sep sep _ hne hsep
-  have hTfail := parseTtl_fails (renderType ty) R (renderType_plain ty) (renderType_length ty hty) hR
-    (renderType_not_u32 ty) line false
-  have hCfail := parseClassField_type_fails ty hty R hR line false
+      skipToNextField .ExpectedType st1 =
+        .ok ((), ⟨tyT ++ R, line + tcLines (gapLines gA) (gapLines gB) ttl cls, tcEnd q1 q2 q3 ttl cls⟩) := by
+  have hTstart : Starts (tyT ++ R) := hty.field.head R
+  have hTfail := fun l q => parseTtl_fails tyT R hty.field.plain hty.field.len hR hty.notU32 l q
+  have hCfail : ∀ l q, tryP parseClassField ⟨tyT ++ R, l, q⟩ = .ok (none, ⟨tyT ++ R, l, q⟩) := fun l q =>
+    tryP_err (readField_plain_none parseClass _ _ R hty.field.plain hty.field.len hR hty.notClass l q)
   cases ttl with
   | some t =>
     have ht' := ht t rfl
     simp only [ttlChoice, Option.some.injEq] at htv
     subst htv
+    have gAok := hA (.inl rfl)
     cases cls with
-    | some k =>
-      have hk' := hk k rfl
-      simp only [clsChoice, Option.some.injEq] at hcv
+    | some ck =>
+      obtain ⟨cT, k⟩ := ck
+      have hk' := hk cT k rfl
+      have gBok := hB rfl rfl
+      simp only [clsChoice, Option.map_some, Option.some.injEq] at hcv
       subst hcv
-      refine ⟨⟨sep ++ (renderType ty ++ R), line, false⟩, ?_, skipToNextField_gap _ sep hsep 84 _ (.inr (by decide)) line false⟩
+      refine ⟨⟨gapText gB ++ (tyT ++ R), line + gapLines gA, q2⟩, ?_, by
+        simpa [tcLines, tcEnd, Nat.add_assoc] using gBok.skip .ExpectedType _ hTstart (line + gapLines gA)⟩
       unfold parseTtlAndClass
+      have hcls : ∀ rest l q, atFieldEnd rest = true →
+          parseClassField ⟨cT ++ rest, l, q⟩ = .ok (k, ⟨rest, l, q⟩) := fun rest l q hrest =>
+        readField_plain parseClass _ _ rest k hk'.field.plain hk'.field.len hrest hk'.parse l q
       cases cf with
       | false =>
-        have e : ttlClassText sep (some t) (some k) false ++ (renderType ty ++ R) =
-            decimal t ++ (sep ++ (renderClass k ++ (sep ++ (renderType ty ++ R)))) := by simp [ttlClassText]
+        have e : tcText (gapText gA) (gapText gB) (some t) (Option.map (·.1) (some (cT, k))) false ++ (tyT ++ R) =
+            decimal t ++ (gapText gA ++ (cT ++ (gapText gB ++ (tyT ++ R)))) := by simp [tcText]
         rw [e]
-        simp only [bind, P.bind, tryP_ok (parseTtl_decimal t ht' _ (atFieldEnd_sep sep _ hne hsep) line false)]
-        have := skipToNextField_gap .ExpectedClassOrType sep hsep 67
-          ([76, 65, 83, 83] ++ decimal k ++ (sep ++ (renderType ty ++ R))) (.inr (by decide)) line false
-        simp only [renderClass, List.cons_append, List.nil_append, List.append_assoc] at this ⊢
-        simp only [this]
-        have hc := tryP_ok (parseClassField_render k hk' (sep ++ (renderType ty ++ R)) hTend line false)
-        simp only [renderClass, List.cons_append, List.nil_append, List.append_assoc] at hc
-        simp only [hc, pure, P.pure]
+        simp only [bind, P.bind, tryP_ok (parseTtl_decimal t ht' _ (gAok.atEnd _) line q1),
+          gAok.skip .ExpectedClassOrType _ (hk'.field.head _) line,
+          tryP_ok (hcls _ _ _ (gBok.atEnd _)), pure, P.pure]
       | true =>
-        -- class first: the TTL attempt fails on `CLASSnnn`, the class is read, then the TTL
-        obtain ⟨d, ds, hd, hdstart⟩ := decimal_head t
-        have e : ttlClassText sep (some t) (some k) true ++ (renderType ty ++ R) =
-            renderClass k ++ (sep ++ (decimal t ++ (sep ++ (renderType ty ++ R)))) := by simp [ttlClassText]
+        have e : tcText (gapText gA) (gapText gB) (some t) (Option.map (·.1) (some (cT, k))) true ++ (tyT ++ R) =
+            cT ++ (gapText gA ++ (decimal t ++ (gapText gB ++ (tyT ++ R)))) := by simp [tcText]
         rw [e]
-        have hEnd2 : atFieldEnd (sep ++ (decimal t ++ (sep ++ (renderType ty ++ R)))) = true :=
-          atFieldEnd_sep sep _ hne hsep
-        have h1 := parseTtl_fails (renderClass k) _ (renderClass_plain k) (renderClass_length k hk') hEnd2
-          (renderClass_not_u32 k) line false
-        simp only [bind, P.bind, h1, tryP_ok (parseClassField_render k hk' _ hEnd2 line false)]
-        have hsk := skipToNextField_gap .ExpectedTtlOrType sep hsep d (ds ++ (sep ++ (renderType ty ++ R))) hdstart line false
-        have hok := tryP_ok (parseTtl_decimal t ht' (sep ++ (renderType ty ++ R)) hTend line false)
-        rw [hd] at hok ⊢
-        simp only [List.cons_append, List.append_assoc] at hsk hok ⊢
-        simp only [hsk, hok, pure, P.pure]
+        have h1 := parseTtl_fails cT _ hk'.field.plain hk'.field.len (gAok.atEnd (decimal t ++ (gapText gB ++ (tyT ++ R))))
+          hk'.notU32 line q1
+        simp only [bind, P.bind, h1, tryP_ok (hcls _ _ _ (gAok.atEnd _)),
+          gAok.skip .ExpectedTtlOrType _ (decimal_starts t _) line,
+          tryP_ok (parseTtl_decimal t ht' _ (gBok.atEnd _) _ _), pure, P.pure]
     | none =>
-      refine ⟨⟨renderType ty ++ R, line, false⟩, ?_, skip_nil _ 84 _ (.inr (by decide)) line false⟩
+      refine ⟨⟨tyT ++ R, line + gapLines gA, q2⟩, ?_, by
+        simpa [tcLines, tcEnd] using skipTo_nil .ExpectedType _ hTstart (line + gapLines gA) q2⟩
       unfold parseTtlAndClass
-      have e : ttlClassText sep (some t) none cf ++ (renderType ty ++ R) =
-          decimal t ++ (sep ++ (renderType ty ++ R)) := by cases cf <;> simp [ttlClassText]
+      have e : tcText (gapText gA) (gapText gB) (some t) (Option.map (·.1) (none : Option (List UInt8 × Nat))) cf ++ (tyT ++ R) =
+          decimal t ++ (gapText gA ++ (tyT ++ R)) := by simp [tcText]
       rw [e]
-      simp only [bind, P.bind, tryP_ok (parseTtl_decimal t ht' _ hTend line false)]
-      have := skipToNextField_gap .ExpectedClassOrType sep hsep 84 ([89, 80, 69] ++ decimal ty ++ R)
-        (.inr (by decide)) line false
-      simp only [renderType, List.cons_append, List.nil_append, List.append_assoc] at this hCfail ⊢
-      simp only [this, hCfail]
-      simp only [clsChoice] at hcv
-      simp only [hcv, pure, P.pure]
+      simp only [clsChoice, Option.map_none] at hcv
+      simp only [bind, P.bind, tryP_ok (parseTtl_decimal t ht' _ (gAok.atEnd _) line q1),
+        gAok.skip .ExpectedClassOrType _ hTstart line, hCfail, hcv, pure, P.pure]
   | none =>
     simp only [ttlChoice] at htv
     cases cls with
-    | some k =>
-      have hk' := hk k rfl
-      simp only [clsChoice, Option.some.injEq] at hcv
+    | some ck =>
+      obtain ⟨cT, k⟩ := ck
+      have hk' := hk cT k rfl
+      have gAok := hA (.inr rfl)
+      simp only [clsChoice, Option.map_some, Option.some.injEq] at hcv
       subst hcv
-      refine ⟨⟨renderType ty ++ R, line, false⟩, ?_, skip_nil _ 84 _ (.inr (by decide)) line false⟩
+      refine ⟨⟨tyT ++ R, line + gapLines gA, q2⟩, ?_, by
+        simpa [tcLines, tcEnd] using skipTo_nil .ExpectedType _ hTstart (line + gapLines gA) q2⟩
       unfold parseTtlAndClass
-      have e : ttlClassText sep none (some k) cf ++ (renderType ty ++ R) =
-          renderClass k ++ (sep ++ (renderType ty ++ R)) := by cases cf <;> simp [ttlClassText]
+      have e : tcText (gapText gA) (gapText gB) none (Option.map (·.1) (some (cT, k))) cf ++ (tyT ++ R) =
+          cT ++ (gapText gA ++ (tyT ++ R)) := by simp [tcText]
       rw [e]
-      have h1 := parseTtl_fails (renderClass k) (sep ++ (renderType ty ++ R)) (renderClass_plain k)
-        (renderClass_length k hk') hTend (renderClass_not_u32 k) line false
-      simp only [bind, P.bind, h1, tryP_ok (parseClassField_render k hk' _ hTend line false)]
-      have := skipToNextField_gap .ExpectedTtlOrType sep hsep 84 ([89, 80, 69] ++ decimal ty ++ R)
-        (.inr (by decide)) line false
-      simp only [renderType, List.cons_append, List.nil_append, List.append_assoc] at this hTfail ⊢
-      simp only [this, hTfail, htv, pure, P.pure]
+      have h1 := parseTtl_fails cT _ hk'.field.plain hk'.field.len (gAok.atEnd (tyT ++ R)) hk'.notU32 line q1
+      have hcls : parseClassField ⟨cT ++ (gapText gA ++ (tyT ++ R)), line, q1⟩ =
+          .ok (k, ⟨gapText gA ++ (tyT ++ R), line, q1⟩) :=
+        readField_plain parseClass _ _ _ k hk'.field.plain hk'.field.len (gAok.atEnd _) hk'.parse line q1
+      simp only [bind, P.bind, h1, tryP_ok hcls, gAok.skip .ExpectedTtlOrType _ hTstart line,
+        hTfail, htv, pure, P.pure]
     | none =>
-      simp only [clsChoice] at hcv
-      refine ⟨⟨renderType ty ++ R, line, false⟩, ?_, skip_nil _ 84 _ (.inr (by decide)) line false⟩
+      simp only [clsChoice, Option.map_none] at hcv
+      refine ⟨⟨tyT ++ R, line, q1⟩, ?_, by
+        simpa [tcLines, tcEnd] using skipTo_nil .ExpectedType _ hTstart line q1⟩
       unfold parseTtlAndClass
-      have e : ttlClassText sep none none cf ++ (renderType ty ++ R) = renderType ty ++ R := by
-        cases cf <;> simp [ttlClassText]
+      have e : tcText (gapText gA) (gapText gB) none (Option.map (·.1) (none : Option (List UInt8 × Nat))) cf ++ (tyT ++ R) =
+          tyT ++ R := by simp [tcText]
       rw [e]
       simp only [bind, P.bind, hTfail, hCfail, htv, hcv, pure, P.pure]
 
 /-! ### the type field and the rest of a record -/
 
-theorem parseTypeField_render (ty : Nat) (hty : ty ≤ 65535) (h10 : ty ≠ 10) (h41 : ty ≠ 41) (h250 : ty ≠ 250)
-    (rest : List UInt8) (hrest : atFieldEnd rest = true) (line : Nat) (paren : Bool) :
-    parseTypeField ⟨renderType ty ++ rest, line, paren⟩ = .ok (ty, ⟨rest, line, paren⟩) := by
+theorem parseTypeField_eval (tyT : List UInt8) (ty : Nat) (hty : TypeTextOK tyT ty) (h10 : ty ≠ 10)
+    (h41 : ty ≠ 41) (h250 : ty ≠ 250) (rest : List UInt8) (hrest : atFieldEnd rest = true) (line : Nat)
+    (paren : Bool) : parseTypeField ⟨tyT ++ rest, line, paren⟩ = .ok (ty, ⟨rest, line, paren⟩) := by
   unfold parseTypeField
   simp only [bind, P.bind, getLine,
-    readField_plain parseType _ _ rest ty (renderType_plain ty) (renderType_length ty hty) hrest
-      (parseType_render ty hty) line paren]
+    readField_plain parseType _ _ rest ty hty.field.plain hty.field.len hrest hty.parse line paren]
   have : Gen.parseTypeRejected.find? (fun r => r.1 == ty) = none := by
     have e10 : (10 == ty) = false := by simp; omega
     have e41 : (41 == ty) = false := by simp; omega
@@ -221,55 +169,51 @@ theorem parseTypeField_render (ty : Nat) (hty : ty ≤ 65535) (h10 : ty ≠ 10) 
     simp [Gen.parseTypeRejected, List.find?, e10, e41, e250]
   simp [this, pure, P.pure]
 
-/-- everything of a record after the owner field and the blanks that follow it -/
-def recordBody (sep : List UInt8) (ttl cls : Option Nat) (cf : Bool) (ty : Nat) (rd tail : List UInt8) : List UInt8 :=
-  ttlClassText sep ttl cls cf ++
-    (renderType ty ++ (sep ++ 92 :: 35 :: (genericTail sep rd ++ tail)))
+/-- everything of a record after the owner field and the gap that follows it; `R0` is the text
+    after the type field (gap, RDATA, end of line) -/
+def recordBody (gA gB : List UInt8) (ttl : Option Nat) (clsT : Option (List UInt8)) (cf : Bool)
+    (tyT R0 : List UInt8) : List UInt8 :=
+  tcText gA gB ttl clsT cf ++ (tyT ++ R0)
 
-theorem recordBody_head (sep : List UInt8) (ttl cls : Option Nat) (cf : Bool) (ty : Nat) (rd tail : List UInt8) :
-    ∃ c t, recordBody sep ttl cls cf ty rd tail = c :: t ∧ fieldStart c ∧ c ≠ 36 := by
+theorem recordBody_head (gA gB : List UInt8) (ttl : Option Nat) (clsT : Option (List UInt8)) (cf : Bool)
+    (tyT R0 : List UInt8) (hcls : ∀ T, clsT = some T → FieldText T) (hty : FieldText tyT) :
+    Starts (recordBody gA gB ttl clsT cf tyT R0) := by
   unfold recordBody
-  have hdig : ∀ (t : Nat) (b : List UInt8), ∃ d x, decimal t ++ b = d :: x ∧ fieldStart d ∧ d ≠ 36 := by
-    intro t b
-    obtain ⟨d, ds, hd, hs⟩ := decimal_head t
-    refine ⟨d, ds ++ b, by rw [hd]; rfl, hs, ?_⟩
-    have := decimal_digits t d (by rw [hd]; simp)
-    intro h; subst h; simp [isDigit] at this
-  have hC : ∀ (k : Nat) (b : List UInt8), ∃ x, renderClass k ++ b = 67 :: x := fun k b => ⟨_, rfl⟩
-  have hT : ∀ (b : List UInt8), ∃ x, renderType ty ++ b = 84 :: x := fun b => ⟨_, rfl⟩
-  have f67 : fieldStart 67 ∧ (67 : UInt8) ≠ 36 := ⟨.inr (by decide), by decide⟩
-  have f84 : fieldStart 84 ∧ (84 : UInt8) ≠ 36 := ⟨.inr (by decide), by decide⟩
   cases ttl with
   | some t =>
-    cases cls with
-    | some k =>
+    cases clsT with
+    | some cT =>
       cases cf with
       | false =>
-        obtain ⟨d, x, hx, hs, h36⟩ := hdig t (sep ++ (renderClass k ++ sep) ++ (renderType ty ++ (sep ++ 92 :: 35 :: (genericTail sep rd ++ tail))))
-        exact ⟨d, x, by rw [← hx]; simp [ttlClassText], hs, h36⟩
+        obtain ⟨c, x, hx, hs⟩ := decimal_starts t (gA ++ (cT ++ gB) ++ (tyT ++ R0))
+        exact ⟨c, x, by rw [← hx]; simp [tcText], hs⟩
       | true =>
-        obtain ⟨x, hx⟩ := hC k (sep ++ (decimal t ++ sep) ++ (renderType ty ++ (sep ++ 92 :: 35 :: (genericTail sep rd ++ tail))))
-        exact ⟨67, x, by rw [← hx]; simp [ttlClassText], f67.1, f67.2⟩
+        obtain ⟨c, x, hx, hs⟩ := (hcls cT rfl).head (gA ++ (decimal t ++ gB) ++ (tyT ++ R0))
+        exact ⟨c, x, by rw [← hx]; simp [tcText], hs⟩
     | none =>
-      obtain ⟨d, x, hx, hs, h36⟩ := hdig t (sep ++ (renderType ty ++ (sep ++ 92 :: 35 :: (genericTail sep rd ++ tail))))
-      exact ⟨d, x, by rw [← hx]; cases cf <;> simp [ttlClassText], hs, h36⟩
+      obtain ⟨c, x, hx, hs⟩ := decimal_starts t (gA ++ (tyT ++ R0))
+      exact ⟨c, x, by rw [← hx]; simp [tcText], hs⟩
   | none =>
-    cases cls with
-    | some k =>
-      obtain ⟨x, hx⟩ := hC k (sep ++ (renderType ty ++ (sep ++ 92 :: 35 :: (genericTail sep rd ++ tail))))
-      exact ⟨67, x, by rw [← hx]; cases cf <;> simp [ttlClassText], f67.1, f67.2⟩
+    cases clsT with
+    | some cT =>
+      obtain ⟨c, x, hx, hs⟩ := (hcls cT rfl).head (gA ++ (tyT ++ R0))
+      exact ⟨c, x, by rw [← hx]; simp [tcText], hs⟩
     | none =>
-      obtain ⟨x, hx⟩ := hT (sep ++ 92 :: 35 :: (genericTail sep rd ++ tail))
-      exact ⟨84, x, by rw [← hx]; cases cf <;> simp [ttlClassText], f84.1, f84.2⟩
+      obtain ⟨c, x, hx, hs⟩ := hty.head R0
+      exact ⟨c, x, by rw [← hx]; simp [tcText], hs⟩
 
-/-- the record parser from the TTL/class/type fields on: values, RDATA, and the new context -/
-theorem recordTail_eval (ctx : Ctx) (owner : List UInt8) (startLine : Nat) (sep : List UInt8) (hne : sep ≠ [])
-    (hsep : ∀ x ∈ sep, isWs x = true) (ttl cls : Option Nat) (cf : Bool) (ht : ∀ t, ttl = some t → t ≤ 4294967295)
-    (hk : ∀ k, cls = some k → k ≤ 65535) (ty : Nat) (hty : ty ≤ 65535) (h10 : ty ≠ 10) (h41 : ty ≠ 41)
-    (h250 : ty ≠ 250) (rd : List UInt8) (hlen : rd.length ≤ 65535) (tv cv : Nat)
-    (htv : ttlChoice ctx ttl = some tv) (hcv : clsChoice ctx cls = some cv)
-    (hvalid : validate cv ty rd = .ok ())
-    (ws cmt r : List UInt8) (hws : ∀ x ∈ ws, isWs x = true) (hc : commentOK cmt) (line : Nat) :
+/-- the record parser from the TTL/class/type fields on: values, RDATA, and the new context;
+    `hrd` says what `parse_rdata` makes of the text after the type field -/
+theorem recordTail_eval (ctx : Ctx) (owner : List UInt8) (startLine : Nat) (gA gB : PGap) (q1 q2 q3 : Bool)
+    (ttl : Option Nat) (cls : Option (List UInt8 × Nat)) (cf : Bool)
+    (ht : ∀ t, ttl = some t → t ≤ 4294967295) (hk : ∀ T k, cls = some (T, k) → ClassTextOK T k)
+    (hA : ttl.isSome = true ∨ cls.isSome = true → GapOK gA q1 q2)
+    (hB : ttl.isSome = true → cls.isSome = true → GapOK gB q2 q3)
+    (tyT : List UInt8) (ty : Nat) (hty : TypeTextOK tyT ty) (h10 : ty ≠ 10) (h41 : ty ≠ 41) (h250 : ty ≠ 250)
+    (tv cv : Nat) (htv : ttlChoice ctx ttl = some tv) (hcv : clsChoice ctx (cls.map (·.2)) = some cv)
+    (R0 : List UInt8) (hR0 : atFieldEnd R0 = true) (rd r : List UInt8) (line line' : Nat)
+    (hrd : parseRdata ctx cv ty ⟨R0, line + tcLines (gapLines gA) (gapLines gB) ttl cls, tcEnd q1 q2 q3 ttl cls⟩ =
+      .ok (rd, ⟨r, line', false⟩)) :
     (do
       skipToNextField Kind.ExpectedTtlClassOrType
       let __x ← parseTtlAndClass ctx
@@ -281,545 +225,20 @@ theorem recordTail_eval (ctx : Ctx) (owner : List UInt8) (startLine : Nat) (sep 
           pure
               (some (Item.record startLine { owner := owner, ttl := ttl, cls := cls, ty := ty, rdata := rdata }),
                 { ctx with prevOwner := some owner, prevTtl := some ttl, prevClass := some cls }) : P (Option Item × Ctx))
-      ⟨recordBody sep ttl cls cf ty rd (ws ++ (cmt ++ 10 :: r)), line, false⟩ =
+      ⟨recordBody (gapText gA) (gapText gB) ttl (cls.map (·.1)) cf tyT R0, line, q1⟩ =
     .ok ((some (.record startLine ⟨owner, tv, cv, ty, rd⟩),
           { ctx with prevOwner := some owner, prevTtl := some tv, prevClass := some cv }),
-         ⟨r, line + 1, false⟩) := by
-  obtain ⟨c, t, hbody, hstart, _⟩ := recordBody_head sep ttl cls cf ty rd (ws ++ (cmt ++ 10 :: r))
-  have hR : atFieldEnd (sep ++ 92 :: 35 :: (genericTail sep rd ++ (ws ++ (cmt ++ 10 :: r)))) = true :=
-    atFieldEnd_sep sep _ hne hsep
-  obtain ⟨st1, h1, h2⟩ := ttlClass_eval ctx sep hne hsep ttl cls cf ht hk ty hty _ hR tv cv htv hcv line
-  have hskip0 : skipToNextField .ExpectedTtlClassOrType ⟨recordBody sep ttl cls cf ty rd (ws ++ (cmt ++ 10 :: r)), line, false⟩ =
-      .ok ((), ⟨recordBody sep ttl cls cf ty rd (ws ++ (cmt ++ 10 :: r)), line, false⟩) := by
-    rw [hbody]; exact skip_nil _ c t hstart line false
+         ⟨r, line', false⟩) := by
+  have hclsF : ∀ T, cls.map (·.1) = some T → FieldText T := by
+    intro T hT
+    cases cls with
+    | none => simp at hT
+    | some ck => obtain ⟨cT, k⟩ := ck; simp at hT; subst hT; exact (hk cT k rfl).field
+  obtain ⟨st1, h1, h2⟩ := ttlClass_eval ctx gA gB q1 q2 q3 ttl cls cf ht hk hA hB tyT ty hty R0 hR0 tv cv htv hcv line
+  have hskip0 := skipTo_nil .ExpectedTtlClassOrType _
+    (recordBody_head (gapText gA) (gapText gB) ttl (cls.map (·.1)) cf tyT R0 hclsF hty.field) line q1
   simp only [bind, P.bind, hskip0]
   unfold recordBody
-  simp only [h1, h2, parseTypeField_render ty hty h10 h41 h250 _ hR line false,
-    parseRdata_generic ctx cv ty h41 h250 sep rd ws cmt r hne hsep hlen hvalid hws hc line, pure, P.pure]
-
-/-! ### whole records -/
-
-/-- the parser's context as the specification sees it -/
-def toSCtx (ctx : Ctx) : SCtx := ⟨ctx.origin, ctx.prevOwner, ctx.prevTtl, ctx.prevClass, ctx.defaultTtl⟩
-
-structure WFOwnerAbs (ls : List PLabel) : Prop where
-  ne : ls ≠ []
-  forms : ∀ l ∈ ls, ∀ x ∈ l, nameFormOK x.1 x.2 = true
-  labels : LabelsOK (ls.map labelOctets)
-  total : (flatLabels (ls.map labelOctets)).length + 1 ≤ 255
-  notDollar : (renderAbsName ls).head? ≠ some 36
-
-structure WFOwnerRel (ls : List PLabel) (l : PLabel) : Prop where
-  forms : ∀ l' ∈ ls ++ [l], ∀ x ∈ l', nameFormOK x.1 x.2 = true
-  labels : LabelsOK ((ls ++ [l]).map labelOctets)
-  notAt : renderLabels (ls ++ [l]) ≠ [64]
-  notDollar : (renderLabels (ls ++ [l])).head? ≠ some 36
-
-/-- well-formed presentation of a record (what the writer must respect) -/
-structure WFRecord (p : PRecord) : Prop where
-  sep_ne : p.sep ≠ []
-  sep_ws : ∀ x ∈ p.sep, isWs x = true
-  trail_ws : ∀ x ∈ p.trail, isWs x = true
-  comment_ok : commentOK p.comment
-  abs_ok : ∀ ls, p.owner = .abs ls → WFOwnerAbs ls
-  rel_ok : ∀ ls l, p.owner = .rel ls l → WFOwnerRel ls l
-  ttl_ok : ∀ t, p.ttl = some t → t ≤ 4294967295
-  cls_ok : ∀ k, p.cls = some k → k ≤ 65535
-  ty_ok : p.ty ≤ 65535 ∧ p.ty ≠ 10 ∧ p.ty ≠ 41 ∧ p.ty ≠ 250
-  rd_ok : p.rdata.length ≤ 65535
-
-theorem dropWhile_ws (sep : List UInt8) (hsep : ∀ x ∈ sep, isWs x = true) (c : UInt8) (t : List UInt8)
-    (hc : isWs c = false) : (sep ++ c :: t).dropWhile isWs = c :: t := by
-  induction sep with
-  | nil => simp [List.dropWhile, hc]
-  | cons x sep ih =>
-    simp only [List.cons_append, List.dropWhile, hsep x (by simp)]
-    exact ih (fun y hy => hsep y (by simp [hy]))
-
-theorem renderRecord_eq (p : PRecord) (r : List UInt8) :
-    renderRecord p ++ r =
-      ownerText p.owner ++
-        (p.sep ++ recordBody p.sep p.ttl p.cls p.clsFirst p.ty p.rdata (p.trail ++ (p.comment ++ 10 :: r))) := by
-  unfold renderRecord recordBody
-  simp
-
-theorem nameNewlines_eq (ls : List PLabel) : nameNewlines ls = labelLines ls := rfl
-
-theorem wireLabels_eq (ls : List (List UInt8)) : wireLabels ls = flatLabels ls := rfl
-
-theorem denoteRecord_some {c : SCtx} {line : Nat} {p : PRecord} {sr : SRecord} {sc' : SCtx}
-    (h : denoteRecord c line p = some (sr, sc')) :
-    ∃ owner tv cv, ownerOf c p = some owner ∧ ttlOf c p = some tv ∧ clsOf c p = some cv ∧
-      sr = ⟨line, owner, tv, cv, p.ty, p.rdata⟩ ∧
-      sc' = { c with prevOwner := some owner, prevTtl := some tv, prevClass := some cv } := by
-  unfold denoteRecord at h
-  split at h
-  · next owner tv cv h1 h2 h3 =>
-    simp only [Option.some.injEq, Prod.mk.injEq] at h
-    exact ⟨owner, tv, cv, h1, h2, h3, h.1.symm, h.2.symm⟩
-  · cases h
-
-/-- a record line whose owner field is a name: whatever `parse_name` makes of the owner text is
-    the owner; the rest is the record tail -/
-theorem parseLine_named (ctx : Ctx) (T : List UInt8) (c0 : UInt8) (t0 : List UInt8) (hT : T = c0 :: t0)
-    (hc0 : fieldStart c0) (h36 : (c0 == 36) = false) (w : List UInt8) (k line : Nat)
-    (hparse : ∀ rest, atFieldEnd rest = true →
-      parseName ctx.origin ⟨T ++ rest, line, false⟩ = .ok (w, ⟨rest, line + k, false⟩))
-    (sep : List UInt8) (hne : sep ≠ []) (hsep : ∀ x ∈ sep, isWs x = true) (ttl cls : Option Nat) (cf : Bool)
-    (ht : ∀ t, ttl = some t → t ≤ 4294967295) (hk : ∀ k, cls = some k → k ≤ 65535) (ty : Nat)
-    (hty : ty ≤ 65535) (h10 : ty ≠ 10) (h41 : ty ≠ 41) (h250 : ty ≠ 250) (rd : List UInt8)
-    (hlen : rd.length ≤ 65535) (tv cv : Nat) (htv : ttlChoice ctx ttl = some tv)
-    (hcv : clsChoice ctx cls = some cv) (hvalid : validate cv ty rd = .ok ())
-    (ws cmt r : List UInt8) (hws : ∀ x ∈ ws, isWs x = true) (hc : commentOK cmt) :
-    parseLine ctx ⟨T ++ (sep ++ recordBody sep ttl cls cf ty rd (ws ++ (cmt ++ 10 :: r))), line, false⟩ =
-      .ok ((some (.record line ⟨w, tv, cv, ty, rd⟩),
-            { ctx with prevOwner := some w, prevTtl := some tv, prevClass := some cv }),
-           ⟨r, line + k + 1, false⟩) := by
-  obtain ⟨c, t, hbody, hstart, _⟩ := recordBody_head sep ttl cls cf ty rd (ws ++ (cmt ++ 10 :: r))
-  have hc0ws : isWs c0 = false := fieldStart_not_ws hc0
-  have hname := hparse (sep ++ recordBody sep ttl cls cf ty rd (ws ++ (cmt ++ 10 :: r))) (atFieldEnd_sep sep _ hne hsep)
-  subst hT
-  unfold parseLine
-  simp only [List.cons_append, h36, Bool.false_eq_true, ↓reduceIte]
-  rw [parseRecordOrEmpty_eq]
-  have hskipws : ∀ rest', skipWhitespace ⟨c0 :: rest', line, false⟩ = (false, ⟨c0 :: rest', line, false⟩) := by
-    intro rest'
-    unfold skipWhitespace
-    simp [hc0ws, List.dropWhile]
-  simp only [hskipws, fieldOrEol_at_field true c0 _ hc0 line false]
-  have hb : ((FieldOrEol.Field == FieldOrEol.Eol) = true) = False := by simp
-  simp only [hb, ↓reduceIte]
-  unfold parseRecordRest
-  simp only [Bool.false_eq_true, ↓reduceIte, bind, P.bind, pName]
-  simp only [List.cons_append] at hname
-  simp only [hname]
-  have hskip := skipToNextField_gap .ExpectedTtlClassOrType sep hsep c t hstart (line + k) false
-  have htail := recordTail_eval ctx w line sep hne hsep ttl cls cf ht hk ty hty h10 h41 h250 rd hlen tv cv htv hcv
-    hvalid ws cmt r hws hc (line + k)
-  rw [hbody] at htail ⊢
-  simp only [bind, P.bind, skip_nil _ c t hstart] at htail
-  simp only [hskip]
-  exact htail
-
-theorem labels_head {ls : List PLabel} {l : PLabel} (hforms : ∀ l' ∈ ls ++ [l], ∀ x ∈ l', nameFormOK x.1 x.2 = true)
-    (hLs : LabelsOK ((ls ++ [l]).map labelOctets)) :
-    ∃ c t, renderLabels (ls ++ [l]) = c :: t ∧ fieldStart c := by
-  rw [renderLabels_snoc]
-  cases ls with
-  | nil =>
-    have hne : l ≠ [] := label_nonempty (hLs (labelOctets l) (by simp)).1
-    obtain ⟨c, t, hct, _, hend⟩ := renderLabel_head hne (hforms l (by simp))
-    exact ⟨c, t, by simp [hct], hend⟩
-  | cons x ls' =>
-    have hne : x ≠ [] := label_nonempty (hLs (labelOctets x) (by simp)).1
-    obtain ⟨c, t, hct, _, hend⟩ := renderLabel_head hne (hforms x (by simp))
-    exact ⟨c, _, by simp [hct]; rfl, hend⟩
-
-/-- **One record.**  A well-formed record line, in a well-formed context in which it denotes a
-    record whose RDATA is valid for its class and type, parses to exactly that record, at the
-    line where it starts; the parser's context afterwards is the denoted one. -/
-theorem parseLine_record (ctx : Ctx) (hctx : CtxWF ctx) (p : PRecord) (hwf : WFRecord p) (line : Nat)
-    (r : List UInt8) (sr : SRecord) (sc' : SCtx) (hden : denoteRecord (toSCtx ctx) line p = some (sr, sc'))
-    (hvalid : validate sr.cls p.ty p.rdata = .ok ()) :
-    ∃ ctx', parseLine ctx ⟨renderRecord p ++ r, line, false⟩ =
-        .ok ((some (.record sr.line ⟨sr.owner, sr.ttl, sr.cls, sr.ty, sr.rdata⟩), ctx'),
-             ⟨r, line + ownerLines p.owner + 1, false⟩) ∧
-      toSCtx ctx' = sc' := by
-  obtain ⟨hne, hsep, htrail, hcmt, habs, hrel, httl, hcls, ⟨hty, h10, h41, h250⟩, hrd⟩ := hwf
-  obtain ⟨owner, tv, cv, howner, htv, hcv, rfl, rfl⟩ := denoteRecord_some hden
-  have htv' : ttlChoice ctx p.ttl = some tv := by
-    unfold ttlOf at htv
-    unfold ttlChoice
-    cases hp : p.ttl with
-    | some t => simpa [hp, ttlFrom, ttlValue] using htv
-    | none => simpa [hp, toSCtx, defaultOrPreviousTtl] using htv
-  have hcv' : clsChoice ctx p.cls = some cv := by
-    unfold clsOf at hcv
-    unfold clsChoice
-    cases hp : p.cls with
-    | some k => simpa [hp] using hcv
-    | none => simpa [hp, toSCtx] using hcv
-  unfold ownerOf at howner
-  obtain ⟨c, t, hbody, hstart, hc36⟩ := recordBody_head p.sep p.ttl p.cls p.clsFirst p.ty p.rdata (p.trail ++ (p.comment ++ 10 :: r))
-  have hcws := fieldStart_not_ws hstart
-  rw [renderRecord_eq]
-  cases hp : p.owner with
-  | same =>
-    simp only [hp, toSCtx] at howner
-    simp only [ownerText, List.nil_append, ownerLines, Nat.add_zero]
-    -- the line starts with blanks: same owner as before
-    obtain ⟨x, sep', hsep'⟩ : ∃ x sep', p.sep = x :: sep' := by
-      cases hs : p.sep with
-      | nil => exact absurd hs hne
-      | cons x s => exact ⟨x, s, rfl⟩
-    have hx : isWs x = true := hsep x (by rw [hsep']; simp)
-    have hx36 : (x == 36) = false := by
-      simp only [isWs, Bool.or_eq_true, beq_iff_eq] at hx
-      rcases hx with rfl | rfl <;> decide
-    refine ⟨{ ctx with prevOwner := some owner, prevTtl := some tv, prevClass := some cv }, ?_, by simp [toSCtx]⟩
-    have esep : p.sep ++ recordBody p.sep p.ttl p.cls p.clsFirst p.ty p.rdata (p.trail ++ (p.comment ++ 10 :: r)) =
-        x :: (sep' ++ recordBody p.sep p.ttl p.cls p.clsFirst p.ty p.rdata (p.trail ++ (p.comment ++ 10 :: r))) := by
-      conv => lhs; arg 1; rw [hsep']
-      rfl
-    rw [esep]
-    unfold parseLine
-    simp only [hx36, Bool.false_eq_true, ↓reduceIte]
-    rw [parseRecordOrEmpty_eq]
-    have hskipws : skipWhitespace ⟨x :: (sep' ++ recordBody p.sep p.ttl p.cls p.clsFirst p.ty p.rdata (p.trail ++ (p.comment ++ 10 :: r))), line, false⟩ =
-        (true, ⟨recordBody p.sep p.ttl p.cls p.clsFirst p.ty p.rdata (p.trail ++ (p.comment ++ 10 :: r)), line, false⟩) := by
-      unfold skipWhitespace
-      simp only [hx]
-      have := dropWhile_ws p.sep hsep c t hcws
-      rw [← hbody, esep] at this
-      rw [this]
-    simp only [hskipws]
-    simp only [hbody, fieldOrEol_at_field true c t hstart line false]
-    have hb : ((FieldOrEol.Field == FieldOrEol.Eol) = true) = False := by simp
-    simp only [hb, ↓reduceIte]
-    unfold parseRecordRest
-    simp only [↓reduceIte, howner, bind, P.bind, pure, P.pure]
-    rw [← hbody]
-    exact recordTail_eval ctx owner line p.sep hne hsep p.ttl p.cls p.clsFirst httl hcls p.ty hty h10 h41 h250 p.rdata hrd tv cv
-      htv' hcv' hvalid p.trail p.comment r htrail hcmt line
-  | abs ls =>
-    simp only [hp, Option.some.injEq] at howner
-    subst howner
-    obtain ⟨lne, lforms, llabels, ltotal, ldollar⟩ := habs ls hp
-    obtain ⟨l, ls', rfl⟩ : ∃ l ls', ls = l :: ls' := by
-      cases ls with
-      | nil => exact absurd rfl lne
-      | cons l ls' => exact ⟨l, ls', rfl⟩
-    have hlne : l ≠ [] := label_nonempty (llabels (labelOctets l) (by simp)).1
-    obtain ⟨c0, t0, hct0, _, hc0⟩ := renderLabel_head hlne (lforms l (by simp))
-    have habsT : renderAbsName (l :: ls') = c0 :: (t0 ++ 46 :: (ls'.flatMap fun l => renderLabel l ++ [46])) := by
-      simp [renderAbsName, hct0]
-    have hc036 : (c0 == 36) = false := by
-      rw [habsT] at ldollar
-      simpa using ldollar
-    refine ⟨_, parseLine_named ctx (renderAbsName (l :: ls')) c0 _ habsT hc0 hc036 _ (labelLines (l :: ls')) line
-      (fun rest hrest => by
-        have := parseName_abs ctx.origin (l :: ls') lne lforms llabels ltotal rest hrest line false
-        rw [nameNewlines_eq] at this; exact this)
-      p.sep hne hsep p.ttl p.cls p.clsFirst httl hcls p.ty hty h10 h41 h250 p.rdata hrd tv cv htv' hcv' hvalid
-      p.trail p.comment r htrail hcmt, by simp [toSCtx]⟩
-  | rel ls l =>
-    simp only [hp, toSCtx] at howner
-    obtain ⟨lforms, llabels, lnotat, ldollar⟩ := hrel ls l hp
-    cases ho : ctx.origin with
-    | none => simp [ho] at howner
-    | some o =>
-      simp only [ho] at howner
-      split at howner
-      · next hfit =>
-        simp only [Option.some.injEq] at howner
-        subst howner
-        obtain ⟨c0, t0, hct0, hc0⟩ := labels_head lforms llabels
-        have hc036 : (c0 == 36) = false := by
-          rw [hct0] at ldollar
-          simpa using ldollar
-        have hoWF : NameWF o := hctx.1 o ho
-        refine ⟨_, parseLine_named ctx (renderLabels (ls ++ [l])) c0 t0 hct0 hc0 hc036 _ (labelLines (ls ++ [l])) line
-          (fun rest hrest => by
-            have := parseName_rel o hoWF ls l lforms llabels (by rw [wireLabels_eq] at hfit; exact hfit) lnotat rest
-              hrest line false
-            rw [nameNewlines_eq] at this
-            rw [ho, wireLabels_eq]; exact this)
-          p.sep hne hsep p.ttl p.cls p.clsFirst httl hcls p.ty hty h10 h41 h250 p.rdata hrd tv cv htv' hcv' hvalid
-          p.trail p.comment r htrail hcmt, by simp [toSCtx]⟩
-      · cases howner
-  | atSign =>
-    simp only [hp, toSCtx] at howner
-    refine ⟨_, parseLine_named ctx [64] 64 [] rfl (.inr (by decide)) (by decide) owner 0 line
-      (fun rest hrest => by
-        rw [howner]
-        exact parseName_at owner rest hrest line false)
-      p.sep hne hsep p.ttl p.cls p.clsFirst httl hcls p.ty hty h10 h41 h250 p.rdata hrd tv cv htv' hcv' hvalid
-      p.trail p.comment r htrail hcmt, by simp [toSCtx]⟩
-
-/-! ### blank lines and directives -/
-
-theorem parseLine_blank (ctx : Ctx) (ws cmt r : List UInt8) (hws : ∀ x ∈ ws, isWs x = true)
-    (hc : commentOK cmt) (line : Nat) :
-    parseLine ctx ⟨ws ++ (cmt ++ 10 :: r), line, false⟩ = .ok ((none, ctx), ⟨r, line + 1, false⟩) := by
-  -- the first octet of the line: a blank, `;`, or the newline — never `$`
-  obtain ⟨c, t, hct, hc36⟩ : ∃ c t, ws ++ (cmt ++ 10 :: r) = c :: t ∧ (c == 36) = false := by
-    cases ws with
-    | cons x ws' =>
-      have hx := hws x (by simp)
-      refine ⟨x, _, rfl, ?_⟩
-      simp only [isWs, Bool.or_eq_true, beq_iff_eq] at hx
-      rcases hx with rfl | rfl <;> decide
-    | nil =>
-      rcases hc with rfl | ⟨body, rfl, _⟩
-      · exact ⟨10, r, rfl, by decide⟩
-      · exact ⟨59, _, rfl, by decide⟩
-  unfold parseLine
-  simp only [hct, hc36, Bool.false_eq_true, ↓reduceIte]
-  rw [parseRecordOrEmpty_eq, ← hct]
-  have hdrop : (ws ++ (cmt ++ 10 :: r)).dropWhile isWs = cmt ++ 10 :: r := by
-    rcases hc with rfl | ⟨body, rfl, _⟩
-    · exact dropWhile_ws ws hws 10 r (by decide)
-    · exact dropWhile_ws ws hws 59 _ (by decide)
-  have hsk : (skipWhitespace ⟨ws ++ (cmt ++ 10 :: r), line, false⟩).2 = ⟨cmt ++ 10 :: r, line, false⟩ := by
-    unfold skipWhitespace
-    rw [hct]; simp only; rw [← hct, hdrop]
-  rw [hsk]
-  have := fieldOrEol_eol [] cmt r (by simp) hc line
-  simp only [List.nil_append] at this
-  simp only [this, beq_self_eq_true, ↓reduceIte, pure, P.pure]
-
-theorem origin_bytes : "$ORIGIN".toUTF8.toList = [36, 79, 82, 73, 71, 73, 78] := by decide +kernel
-theorem ttl_bytes : "$TTL".toUTF8.toList = [36, 84, 84, 76] := by decide +kernel
-
-/-- `$ORIGIN <absolute name>` sets the origin -/
-theorem parseLine_origin (ctx : Ctx) (ls : List PLabel) (hls : WFOwnerAbs ls) (sep ws cmt r : List UInt8)
-    (hne : sep ≠ []) (hsep : ∀ x ∈ sep, isWs x = true) (hws : ∀ x ∈ ws, isWs x = true) (hc : commentOK cmt)
-    (line : Nat) :
-    parseLine ctx ⟨[36, 79, 82, 73, 71, 73, 78] ++ (sep ++ (renderAbsName ls ++ (ws ++ (cmt ++ 10 :: r)))), line, false⟩ =
-      .ok ((none, { ctx with origin := some (wireName (ls.map labelOctets)) }),
-           ⟨r, line + labelLines ls + 1, false⟩) := by
-  obtain ⟨lne, lforms, llabels, ltotal, _⟩ := hls
-  obtain ⟨l, ls', rfl⟩ : ∃ l ls', ls = l :: ls' := by
-    cases ls with
-    | nil => exact absurd rfl lne
-    | cons l ls' => exact ⟨l, ls', rfl⟩
-  have hlne : l ≠ [] := label_nonempty (llabels (labelOctets l) (by simp)).1
-  obtain ⟨c0, t0, hct0, _, hc0⟩ := renderLabel_head hlne (lforms l (by simp))
-  have habsT : renderAbsName (l :: ls') = c0 :: (t0 ++ 46 :: (ls'.flatMap fun l => renderLabel l ++ [46])) := by
-    simp [renderAbsName, hct0]
-  have hEnd := atFieldEnd_eol ws cmt r hws hc
-  have hname := parseName_abs ctx.origin (l :: ls') lne lforms llabels ltotal _ hEnd line false
-  rw [nameNewlines_eq] at hname
-  have hexp : expectFieldCI [36, 79, 82, 73, 71, 73, 78]
-      ⟨[36, 79, 82, 73, 71, 73, 78] ++ (sep ++ (renderAbsName (l :: ls') ++ (ws ++ (cmt ++ 10 :: r)))), line, false⟩ =
-      (true, ⟨sep ++ (renderAbsName (l :: ls') ++ (ws ++ (cmt ++ 10 :: r))), line, false⟩) := by
-    unfold expectFieldCI expectFieldImpl
-    simp [eqIgnoreCase, atFieldEnd_sep sep _ hne hsep]
-  have hskip := skipToNextField_gap .ExpectedName sep hsep c0
-    (t0 ++ 46 :: (ls'.flatMap fun l => renderLabel l ++ [46]) ++ (ws ++ (cmt ++ 10 :: r))) hc0 line false
-  unfold parseLine
-  simp only [List.cons_append, List.nil_append, beq_self_eq_true, ↓reduceIte]
-  unfold parseDirective
-  simp only [bind, P.bind, liftB, origin_bytes]
-  simp only [List.cons_append, List.nil_append] at hexp
-  simp only [hexp, ↓reduceIte]
-  unfold parseOriginDirective
-  rw [habsT] at hname ⊢
-  simp only [List.cons_append, List.append_assoc] at hskip hname ⊢
-  simp only [bind, P.bind, hskip, pName, hname, expectEol_eol ws cmt r hws hc, pure, P.pure]
-
-/-- `$TTL <decimal>` sets the default TTL -/
-theorem parseLine_ttl (ctx : Ctx) (n : Nat) (hn : n ≤ 4294967295) (sep ws cmt r : List UInt8)
-    (hne : sep ≠ []) (hsep : ∀ x ∈ sep, isWs x = true) (hws : ∀ x ∈ ws, isWs x = true) (hc : commentOK cmt)
-    (line : Nat) :
-    parseLine ctx ⟨[36, 84, 84, 76] ++ (sep ++ (decimal n ++ (ws ++ (cmt ++ 10 :: r)))), line, false⟩ =
-      .ok ((none, { ctx with defaultTtl := some (ttlFrom n) }), ⟨r, line + 1, false⟩) := by
-  obtain ⟨d, ds, hd, hdstart⟩ := decimal_head n
-  have hEnd := atFieldEnd_eol ws cmt r hws hc
-  have hcmp : ∀ X : List UInt8, eqIgnoreCase (List.take 7 (36 :: 84 :: 84 :: 76 :: X)) [36, 79, 82, 73, 71, 73, 78] = false := by
-    intro X; simp [eqIgnoreCase, lowerU8]
-  have hnot : (expectFieldCI [36, 79, 82, 73, 71, 73, 78]
-      ⟨[36, 84, 84, 76] ++ (sep ++ (decimal n ++ (ws ++ (cmt ++ 10 :: r)))), line, false⟩) =
-      (false, ⟨[36, 84, 84, 76] ++ (sep ++ (decimal n ++ (ws ++ (cmt ++ 10 :: r)))), line, false⟩) := by
-    unfold expectFieldCI expectFieldImpl
-    simp only [List.cons_append, List.nil_append]
-    split
-    · rfl
-    · simp only [show ([36, 79, 82, 73, 71, 73, 78] : List UInt8).length = 7 from rfl, hcmp, Bool.false_and,
-        Bool.false_eq_true, ↓reduceIte]
-  have hexp : expectFieldCI [36, 84, 84, 76]
-      ⟨[36, 84, 84, 76] ++ (sep ++ (decimal n ++ (ws ++ (cmt ++ 10 :: r)))), line, false⟩ =
-      (true, ⟨sep ++ (decimal n ++ (ws ++ (cmt ++ 10 :: r))), line, false⟩) := by
-    unfold expectFieldCI expectFieldImpl
-    simp [eqIgnoreCase, atFieldEnd_sep sep _ hne hsep]
-  have hskip := skipToNextField_gap .ExpectedTtl sep hsep d (ds ++ (ws ++ (cmt ++ 10 :: r))) hdstart line false
-  have hread := readField_decimal 4294967295 n hn (by omega) .InvalidTtl _ hEnd line false
-  unfold parseLine
-  simp only [List.cons_append, List.nil_append, beq_self_eq_true, ↓reduceIte]
-  unfold parseDirective
-  simp only [bind, P.bind, liftB, origin_bytes, ttl_bytes]
-  simp only [List.cons_append, List.nil_append] at hnot hexp
-  simp only [hnot, Bool.false_eq_true, ↓reduceIte]
-  simp only [bind, P.bind, liftB, hexp, ↓reduceIte]
-  unfold parseTtlDirective
-  rw [hd] at hread ⊢
-  simp only [List.cons_append, List.append_assoc] at hskip hread ⊢
-  simp only [bind, P.bind, hskip, show parseU32 = parseUInt 4294967295 from rfl, hread,
-    expectEol_eol ws cmt r hws hc, pure, P.pure]
-
-/-! ### whole files -/
-
-theorem collect_item {p p' : Parser} {i : Item} (hn : p.next = (some (.item i), p'))
-    (hlt : p'.st.inp.length < p.st.inp.length) : collect p = .item i :: collect p' := by
-  rw [collect, hn]; simp [hlt]
-
-theorem collect_none {p p' : Parser} (hn : p.next = (none, p')) : collect p = [] := by
-  rw [collect, hn]
-
-/-- two reader states (and contexts) from which `parse_lines_until_returnable_data_found` behaves
-    the same yield the same items -/
-theorem collect_of_untilData_eq {ctx1 ctx2 : Ctx} {st1 st2 : St} (h : untilData ctx1 st1 = untilData ctx2 st2)
-    (hctx : CtxWF ctx2) (hlen : st2.inp.length ≤ st1.inp.length) :
-    collect ⟨false, st1, ctx1⟩ = collect ⟨false, st2, ctx2⟩ := by
-  have g := next_spec (p := ⟨false, st2, ctx2⟩) hctx
-  rw [collect, collect]
-  simp only [Parser.next, Bool.false_eq_true, ↓reduceIte, h] at g ⊢
-  cases hu : untilData ctx2 st2 with
-  | ok r =>
-    obtain ⟨⟨it?, ctx'⟩, st'⟩ := r
-    rw [hu] at g
-    cases it? with
-    | none => rfl
-    | some item =>
-      simp only [NextOK] at g
-      have h2 : st'.inp.length < st2.inp.length := g.2.2
-      have h1 : st'.inp.length < st1.inp.length := by omega
-      simp [h1, h2]
-  | err e => simp [Parser.next]
-  | panic => simp [Parser.next]
-
-/-- a line that yields nothing is stepped over -/
-theorem untilData_skip {ctx ctx' : Ctx} {st st' : St} (hline : parseLine ctx st = .ok ((none, ctx'), st'))
-    (hlt : st'.inp.length < st.inp.length) : untilData ctx st = untilData ctx' st' := by
-  rw [untilData]
-  cases hi : st.inp with
-  | nil => rw [hi] at hlt; simp at hlt
-  | cons c t =>
-    rw [hi] at hlt
-    simp only; rw [hline]; simp only [hlt, ↓reduceIte]
-
-theorem next_of_untilData {ctx ctx' : Ctx} {st st' : St} {i : Item}
-    (h : untilData ctx st = .ok ((some i, ctx'), st')) :
-    (⟨false, st, ctx⟩ : Parser).next = (some (.item i), ⟨false, st', ctx'⟩) := by
-  simp [Parser.next, h]
-
-/-- well-formed presentation of an entry -/
-def WFEntry : PEntry → Prop
-  | .blank ws cmt => (∀ x ∈ ws, isWs x = true) ∧ commentOK cmt
-  | .record p => WFRecord p
-  | .origin ls sep trail cmt =>
-    WFOwnerAbs ls ∧ sep ≠ [] ∧ (∀ x ∈ sep, isWs x = true) ∧ (∀ x ∈ trail, isWs x = true) ∧ commentOK cmt
-  | .ttl n sep trail cmt =>
-    n ≤ 4294967295 ∧ sep ≠ [] ∧ (∀ x ∈ sep, isWs x = true) ∧ (∀ x ∈ trail, isWs x = true) ∧ commentOK cmt
-
-def itemOf (sr : SRecord) : Yield := .item (.record sr.line ⟨sr.owner, sr.ttl, sr.cls, sr.ty, sr.rdata⟩)
-
-/-- stepping over a line that yields nothing, in the run -/
-theorem collect_skip {ctx ctx' : Ctx} (hctx : CtxWF ctx) {text R : List UInt8} {line line' : Nat}
-    (hline : parseLine ctx ⟨text ++ R, line, false⟩ = .ok ((none, ctx'), ⟨R, line', false⟩))
-    (hne : text ≠ []) :
-    collect ⟨false, ⟨text ++ R, line, false⟩, ctx⟩ = collect ⟨false, ⟨R, line', false⟩, ctx'⟩ ∧ CtxWF ctx' := by
-  have hlt : R.length < (text ++ R).length := by
-    have : 0 < text.length := List.length_pos_iff.mpr hne
-    simp; omega
-  have g := parseLine_good hctx ⟨text ++ R, line, false⟩ (by simp [hne])
-  rw [hline] at g
-  exact ⟨collect_of_untilData_eq (untilData_skip hline hlt) g.1.2 (by simp), g.1.2⟩
-
-/-- **Whole files of the subset.**  A file of well-formed entries that denotes the records `srs`
-    (all with RDATA valid for class and type) parses to exactly those records, in order, with
-    their line numbers — from any well-formed context and line. -/
-theorem collect_file (es : List PEntry) (hwf : ∀ e ∈ es, WFEntry e) (ctx : Ctx) (hctx : CtxWF ctx)
-    (line : Nat) (srs : List SRecord) (hden : denoteFile es (toSCtx ctx) line = some srs)
-    (hvalid : ∀ sr ∈ srs, validate sr.cls sr.ty sr.rdata = .ok ()) :
-    collect ⟨false, ⟨renderFile es, line, false⟩, ctx⟩ = srs.map itemOf := by
-  induction es generalizing ctx line srs with
-  | nil =>
-    simp only [denoteFile, Option.some.injEq] at hden
-    subst hden
-    apply collect_none (p' := ⟨false, ⟨[], line, false⟩, ctx⟩)
-    simp [Parser.next, renderFile, untilData]
-  | cons e es ih =>
-    have hwf' : ∀ e' ∈ es, WFEntry e' := fun e' h' => hwf e' (by simp [h'])
-    have hrf : renderFile (e :: es) = renderEntry e ++ renderFile es := by simp [renderFile]
-    cases e with
-    | blank ws cmt =>
-      obtain ⟨hws, hcmt⟩ := hwf (.blank ws cmt) (by simp)
-      simp only [denoteFile] at hden
-      have hline := parseLine_blank ctx ws cmt (renderFile es) hws hcmt line
-      have htext : renderFile (.blank ws cmt :: es) = (ws ++ cmt ++ [10]) ++ renderFile es := by
-        simp [hrf, renderEntry]
-      rw [htext]
-      have hline' : parseLine ctx ⟨(ws ++ cmt ++ [10]) ++ renderFile es, line, false⟩ =
-          .ok ((none, ctx), ⟨renderFile es, line + 1, false⟩) := by
-        have e : (ws ++ cmt ++ [10]) ++ renderFile es = ws ++ (cmt ++ 10 :: renderFile es) := by simp
-        rw [e]; exact hline
-      obtain ⟨hc, _⟩ := collect_skip hctx hline' (by simp)
-      rw [hc]
-      exact ih hwf' ctx hctx (line + 1) srs hden hvalid
-    | origin ls sep trail cmt =>
-      obtain ⟨hls, hne, hsep, htrail, hcmt⟩ := hwf (.origin ls sep trail cmt) (by simp)
-      simp only [denoteFile] at hden
-      have hline := parseLine_origin ctx ls hls sep trail cmt (renderFile es) hne hsep htrail hcmt line
-      have htext : renderFile (.origin ls sep trail cmt :: es) =
-          ([36, 79, 82, 73, 71, 73, 78] ++ sep ++ renderAbsName ls ++ trail ++ cmt ++ [10]) ++ renderFile es := by
-        simp [hrf, renderEntry]
-      rw [htext]
-      have hline' : parseLine ctx
-          ⟨([36, 79, 82, 73, 71, 73, 78] ++ sep ++ renderAbsName ls ++ trail ++ cmt ++ [10]) ++ renderFile es, line, false⟩ =
-          .ok ((none, { ctx with origin := some (wireName (ls.map labelOctets)) }),
-            ⟨renderFile es, line + labelLines ls + 1, false⟩) := by
-        have e : ([36, 79, 82, 73, 71, 73, 78] ++ sep ++ renderAbsName ls ++ trail ++ cmt ++ [10]) ++ renderFile es =
-            [36, 79, 82, 73, 71, 73, 78] ++ (sep ++ (renderAbsName ls ++ (trail ++ (cmt ++ 10 :: renderFile es)))) := by
-          simp
-        rw [e]; exact hline
-      obtain ⟨hc, hctx'⟩ := collect_skip hctx hline' (by simp)
-      rw [hc]
-      exact ih hwf' _ hctx' _ srs hden hvalid
-    | ttl n sep trail cmt =>
-      obtain ⟨hn, hne, hsep, htrail, hcmt⟩ := hwf (.ttl n sep trail cmt) (by simp)
-      simp only [denoteFile] at hden
-      have hline := parseLine_ttl ctx n hn sep trail cmt (renderFile es) hne hsep htrail hcmt line
-      have htext : renderFile (.ttl n sep trail cmt :: es) =
-          ([36, 84, 84, 76] ++ sep ++ decimal n ++ trail ++ cmt ++ [10]) ++ renderFile es := by
-        simp [hrf, renderEntry]
-      rw [htext]
-      have hline' : parseLine ctx
-          ⟨([36, 84, 84, 76] ++ sep ++ decimal n ++ trail ++ cmt ++ [10]) ++ renderFile es, line, false⟩ =
-          .ok ((none, { ctx with defaultTtl := some (ttlFrom n) }), ⟨renderFile es, line + 1, false⟩) := by
-        have e : ([36, 84, 84, 76] ++ sep ++ decimal n ++ trail ++ cmt ++ [10]) ++ renderFile es =
-            [36, 84, 84, 76] ++ (sep ++ (decimal n ++ (trail ++ (cmt ++ 10 :: renderFile es)))) := by simp
-        rw [e]; exact hline
-      obtain ⟨hc, hctx'⟩ := collect_skip hctx hline' (by simp)
-      rw [hc]
-      exact ih hwf' _ hctx' _ srs (by simpa [toSCtx, ttlFrom, ttlValue] using hden) hvalid
-    | record p =>
-      have hp := hwf (.record p) (by simp)
-      simp only [denoteFile, bind, Option.bind] at hden
-      cases hd : denoteRecord (toSCtx ctx) line p with
-      | none => simp [hd] at hden
-      | some res =>
-        obtain ⟨sr, sc'⟩ := res
-        simp only [hd] at hden
-        cases hrest : denoteFile es sc' (line + ownerLines p.owner + 1) with
-        | none => simp [hrest] at hden
-        | some rest =>
-          simp only [hrest, pure, Option.some.injEq] at hden
-          subst hden
-          have hsr : sr.ty = p.ty ∧ sr.rdata = p.rdata := by
-            obtain ⟨_, _, _, _, _, _, rfl, _⟩ := denoteRecord_some hd
-            exact ⟨rfl, rfl⟩
-          have hv := hvalid sr (by simp)
-          rw [hsr.1, hsr.2] at hv
-          obtain ⟨ctx', hline, hsc⟩ := parseLine_record ctx hctx p hp line (renderFile es) sr sc' hd hv
-          have htext : renderFile (.record p :: es) = renderRecord p ++ renderFile es := by
-            simp [hrf, renderEntry]
-          have hne : renderRecord p ++ renderFile es ≠ [] := by simp [renderRecord]
-          have hu : untilData ctx ⟨renderRecord p ++ renderFile es, line, false⟩ =
-              .ok ((some (.record sr.line ⟨sr.owner, sr.ttl, sr.cls, sr.ty, sr.rdata⟩), ctx'),
-                ⟨renderFile es, line + ownerLines p.owner + 1, false⟩) := by
-            rw [untilData]
-            cases hw : renderRecord p ++ renderFile es with
-            | nil => exact absurd hw hne
-            | cons c t => simp only; rw [← hw, hline]
-          rw [htext]
-          have hnext := next_of_untilData hu
-          have g := next_spec (p := ⟨false, ⟨renderRecord p ++ renderFile es, line, false⟩, ctx⟩) hctx
-          rw [hnext] at g
-          rw [collect_item hnext g.2.2]
-          simp only [List.map_cons, itemOf]
-          congr 1
-          exact ih hwf' ctx' g.2.1 _ rest (by rw [hsc]; exact hrest)
-            (fun s hs => hvalid s (by simp [hs]))
+  simp only [h1, h2, parseTypeField_eval tyT ty hty h10 h41 h250 _ hR0, hrd, pure, P.pure]
 
 end QV.ZF
